@@ -21,7 +21,7 @@ EXPLANATION = (
     "shapes it cannot relate are undetermined, not violations."
 )
 NOT_DECIDED = ("uniqueness of marker ids as a theorem over histories (R4 decides the two counter invariants it rests on: past an explicit id, never "
-               "backwards); overflow of the counter; interleavings with entity deletion and allocator maintenance")
+               "backwards); overflow of the counter; interleavings with entity deletion and allocator maintenance R4 also: Clone::clone of every MarkerAllocator implementor builds its result field by field from the same field of self.")
 TRUSTED = ["rustc nightly MIR", "sa/ analyses"]
 LEVEL_TEXT = ("Clause only: the structure that makes loading a merge instead of a duplication (existing marker kept, entity created only when lookup or "
               "marker fetch failed, per-position insert/remove) is decided on all paths. Id uniqueness across histories is NOT decided.")
